@@ -114,6 +114,28 @@ def subclasses():
     return _SUBCLASSES
 
 
+def exercise(o):
+    """Use an object the way a program does before it stores or ships it: read every public property, validate it in every
+    mode, hash, format and compare it. Whatever the object remembers from that must survive copying and pickling."""
+    cls = type(o)
+    for n in sorted(dir(cls)):
+        if n.startswith("_"):
+            continue
+        try:
+            if isinstance(getattr(cls, n, None), property) or n in ("__hash__",):
+                getattr(o, n)
+        except Exception:  # noqa: BLE001
+            pass
+    calls = [lambda: o.validate(), lambda: o.validate(validate_bban=True), lambda: o.validate(enforce_swift_compliance=True),
+             lambda: o.validate_national_checksum(), lambda: o.bban.validate_national_checksum(), lambda: hash(o), lambda: str(o),
+             lambda: repr(o), lambda: o == str(o), lambda: o < "M", lambda: o.bban.bank, lambda: o.bban.bic]
+    for fn in calls:
+        try:
+            fn()
+        except Exception:  # noqa: BLE001
+            pass
+
+
 def check_copies(rec: Rec, desc, validated, origin):
     from ..lib import BBAN, BIC, IBAN
     inp = {"obj": list(desc), "validated": validated, "origin": origin}
@@ -132,6 +154,10 @@ def check_copies(rec: Rec, desc, validated, origin):
         else:
             o = BBAN(desc[2], text)
         want = describe(o)
+        if origin.startswith("used"):
+            exercise(o)
+            if describe(o) != want:
+                rec.fail(f"changed_by_use|{want['type']}", "copy_same_components", inp, want, describe(o))
     except Exception as e:  # noqa: BLE001
         rec.fail(f"construct|{type(e).__name__}", "construct", inp, "object", f"{type(e).__name__}: {e}")
         return
@@ -153,6 +179,9 @@ def check_copies(rec: Rec, desc, validated, origin):
 
 
 def replay(rec, case):
+    if case["input"].get("origin") == "configurations":
+        from ._configs import replay as _r
+        return _r(rec, case)
     i = case["input"]
     if i.get("cross"):
         check_cross_process(rec, [tuple(d) for d in i["items"]], i.get("hashseed", "1"))
@@ -161,7 +190,7 @@ def replay(rec, case):
         check_containers(rec, [tuple(d) for d in i["items"]], "replay")
         return
     if "obj" in i:
-        check_copies(rec, tuple(i["obj"]), i["validated"], "replay")
+        check_copies(rec, tuple(i["obj"]), i["validated"], "used-replay" if str(i.get("origin", "")).startswith("used") else "replay")
     elif "items" in i:
         check_sort(rec, [tuple(d) for d in i["items"]], "replay")
     else:
@@ -312,6 +341,20 @@ def shard_copies(arg):
             rec.case(f"copy-{kind}-unvalidated", (kind, bad), {"obj": [kind, bad]} if k == 0 else None)
         check_copies(rec, ("bban", t[4:], cc), False, "direct")
         rec.case("copy-bban-direct", ("bban", t[4:], cc))
+        # objects that were used before they are copied (every property read, every validation mode asked): a random one and
+        # one of a bank the registry lists (lookups and, for Germany, the bank's method have been resolved on it)
+        used = [t]
+        if k == 0:
+            from .c12 import place_key, real
+            keys = [kk[1] for kk in real()["idx"] if kk[0] == cc]
+            for code in rng.sample(sorted(keys), min(3, len(keys))):
+                tl = place_key(oracle(), g, cc, code, rng)
+                if tl:
+                    used.append(tl)
+        for tu in used:
+            for d, v in ((("iban", tu), True), (("bban_of_iban", tu), True), (("bban", tu[4:], cc), False), (("iban", tu), False)):
+                check_copies(rec, d, v, "used")
+                rec.case("copy-used" + ("-listed-bank" if tu != t else ""), d + (v,))
         # containers: objects with the same text but different class / country in one deepcopy (shared memo)
         from ._shared import sibling_ibans
         sib = [("bban", t[4:], y) for y, _ in sibling_ibans(cc, t[4:], limit=3)]
@@ -370,5 +413,7 @@ def run(ctx):
         check_cross_process(ctx.rec, descs, hs)
         ctx.rec.evals += len(descs)
     ctx.rec.sample("cross-process-object", {"objects": len(descs), "first": list(descs[0])})
-    ctx.require_classes("pair-8-vs-11", "copy-subclass", "copy-degenerate", "cross-process-object", "copy-container", "copy-container-with-sibling-country", "pair-equal-cross-class", "pair-different", "sort-list", "copy-iban-valid", "copy-iban-unvalidated",
+    from ._configs import stage as _config_stage
+    _config_stage(ctx, ['objects'])
+    ctx.require_classes("copy-used", "copy-used-listed-bank", "pair-8-vs-11", "copy-subclass", "copy-degenerate", "cross-process-object", "copy-container", "copy-container-with-sibling-country", "pair-equal-cross-class", "pair-different", "sort-list", "copy-iban-valid", "copy-iban-unvalidated",
                         "copy-bban_of_iban-valid", "copy-bban-direct", "copy-bic-valid", "copy-bic-unvalidated")
